@@ -125,6 +125,8 @@ var c16Skeletons = [][]string{
 	{"(", "f", "'", "(", "1.50", ")", "#^", "(", "g", "%", ")", ")"},
 	{"(", "a", ")", "(", "b", "(", ")", ")"},
 	{"(", "cond", "(", "x", "1", ")", "(", ":else", "1e3", ")", ")"},
+	{"(", "'lisp:function", "f", ")", "#'g", "(", "'lisp:expr", "x", ")", "''a"},
+	{"(", "set", "'primes", "[", "2", "3", "]", ")", "'", "(", "q", "r", ")"},
 }
 
 // Format preserves the expression trees and the comments (order, and the expression each precedes),
@@ -231,6 +233,11 @@ var c17Progs = []string{
 	"(defun kw (req &key opt) (list req opt)) (debug-print (kw A :opt B)) (debug-print '(quoted data kw))",
 	"(defun thrower (val) (error 'my-cond val)) (debug-print (handler-bind ((my-cond (lambda (cnd &rest data) (list cnd data)))) (thrower A)))",
 	"(let* ((fun (lambda (arg) (+ arg A))) (res (funcall fun B))) (debug-print res))",
+	"(defun scale (fac) (* fac 2)) (defun runit (num) (flet ((scale (inner) (+ 1 (scale inner)))) (scale num))) (debug-print (runit A))",
+	"(defun outerfn (val) (+ val 1)) (defun caller (num) (flet ((first-fn (arg) (outerfn arg)) (outerfn (arg) (* arg 10))) (list (first-fn num) (outerfn num)))) (debug-print (caller A))",
+	"(defun twicefn (val) (* val 2)) (labels ((twicefn (num) (if (= num 0) 0 (+ 2 (twicefn (- num 1)))))) (debug-print (twicefn B)))",
+	"(in-package 'router) (defun helperfn (param) (+ param 1)) (in-package 'user) (let ([bound (router:helperfn A)]) (debug-print bound))",
+	"(in-package 'router) (defun helperfn (param) (+ param 1)) (in-package 'user) (debug-print (map 'list (lambda (item) (router:helperfn item)) (list A B)))",
 }
 
 type c17Buf struct{ sb strings.Builder }
